@@ -7,9 +7,21 @@ whose span contains it, buckets lie on the grid start + k·step.  The clamped br
 before start / at or after end) are characterised exactly.
 The aggregates themselves (count/sum/min/max/avg by group) are decided by the end-to-end differential
 against the specification (SigModel/Spec/Logs.lean); spec-level algebra is proved below.
+
+Kernel slice "running statistics and their merge" (model SigModel/Model/Stats.lean, tied to the Go code by the
+correspondence suite `stats`): second half of this file.  Decided by proof there, for ALL value lists, under
+exact arithmetic (`rnd = exact`: the rounding latitude the statement grants to floating sums): the folded
+per-column statistics equal the mathematical count / sum / min / max of the numeric values unless the int64
+sum can wrap (guard explicit, wrap branch characterised); merging the statistics of any split, in any
+association and order, gives the statistics of the whole list unless a merged part holds text only
+(`SegStats.Merge` loses IsNumeric: counterexample theorem, guard excludes exactly that class); avg of the
+no-group path divides by the number of NUMERIC values, avg of the group-by bucket by the number of RECORDS
+(counterexample theorem, exact characterisation, partial theorem for dense fields); ingest-time and query-time
+statistics coincide unless a string is a digit-less form such as "-" (counterexample theorem).
 -/
 import SigModel.Gen.TimeBucket
 import SigModel.Spec.Logs
+import SigModel.Lemmas.C04Sd
 
 namespace SigModel.Props.C04
 open SigModel.Gen SigModel.MachInt
